@@ -277,6 +277,9 @@ def _finish(check, tier, seed, start, runs, good, harness_errors, truncated, wal
         unlisted_sigs.update(r['unlisted_sigs'])
         extras.extend(r['extras'])
     unlisted.sort(key=lambda t: (t[0], t[1]))
+    if os.environ.get('VERIF_VERBOSE') == '1':
+        for run_i, seq, v, _plan in unlisted[:40]:
+            log(f'  [unlisted] run={run_i} seq={seq} sig={v["signature"]} expected={str(v.get("expected"))[:300]!r} actual={str(v.get("actual"))[:300]!r}')
     batch_digest = digest_of(digests)
 
     rc = 0
